@@ -50,8 +50,18 @@ def main():
                 for f in os.listdir(sd):
                     if f.endswith('.py'):
                         shutil.copy(os.path.join(sd, f), os.path.join(d, '_seeded', f))
-                rc, out = sh('timeout 300 /venv/bin/python _seeded/demo.py', cwd=d, env=dict(env, PYTHONPATH=d))
-                res[f'demo_exit_{tag}_patch'] = rc
+                # demos use real sleeps and can be timing-sensitive on a loaded machine: up to 3 runs;
+                # without the patch every run must exit 0, with the patch at least one run must exit 1
+                rcs = []
+                for _ in range(3):
+                    rc, out = sh('timeout 300 /venv/bin/python _seeded/demo.py', cwd=d, env=dict(env, PYTHONPATH=d))
+                    rcs.append(rc)
+                    if tag == 'with' and rc == 1:
+                        break
+                    if tag == 'without' and rc != 0:
+                        break
+                res[f'demo_exits_{tag}_patch'] = rcs
+                res[f'demo_exit_{tag}_patch'] = (1 if 1 in rcs else rcs[-1]) if tag == 'with' else (0 if all(x == 0 for x in rcs) else next(x for x in rcs if x != 0))
                 res[f'demo_tail_{tag}_patch'] = out[-400:]
             rc, out = sh('timeout 1500 /venv/bin/python -m pytest -q -p no:cacheprovider --timeout=900 -n 8 --dist=loadscope -o addopts=""', cwd=d1, env=dict(env, PYTHONPATH=d1))
             res['tests_with_patch'] = out.strip().splitlines()[-1] if out.strip() else f'rc={rc}'
